@@ -53,10 +53,10 @@ claim('C01', 'coresim',
       'deterministic simulation: seeded guard-aware request histories x seeded eviction knobs (fault = loss of cached state at points the caller does not control) vs a fresh no-eviction reference instance; ddmin-minimised replay files',
       "Seeded search over (generated non-flat spacetime presented through a seeded input set) x (cache knobs: clean-up period 1..20, memory threshold 1..40 scalars or default, importance overrides) x (guard-aware history of GET/HELPER/SET_IMPORTANCE ops). After every op the returned value or exception is compared with a fresh instance that holds only the inputs and is asked only that request. Eviction fires inside nested computations in most runs. Sampling, not proof.",
       _CORE_NOTE, 'DESIGN.md section 4 (C01)')
-claim('C02', 'coresim',
-      'deterministic simulation: same histories with a byte-checksum + read-only-flag registry of every array supplied or returned, re-verified after every op',
-      "The C01 workload with a registry of every array the user supplied (inputs, helper arguments) or an earlier request returned (strong references, so they outlive eviction): checksums recomputed after every op, and every registered array flagged read-only so that an in-place write raises at its source line. The over_time / save_data / read_data argument clauses are monitored inside the C14 / C13 / C12 checks (args_mutated / mutation signatures there). Sampling, not proof.",
-      _CORE_NOTE + " Arrays cached internally but never handed to the caller are outside C02 (covered by C01).", 'DESIGN.md section 4 (C02)')
+claim('C02', 'coresim+timesim+iosim',
+      'deterministic simulation: seeded request / over_time / save-read histories with a byte-checksum + read-only-flag registry of every array and argument object supplied or returned, re-verified after every op',
+      "70% of runs: the C01 workload with a registry of every array the user supplied (inputs, helper arguments) or an earlier request returned (strong references, so they outlive eviction): checksums recomputed after every op and every registered array flagged read-only so that an in-place write raises at its source line; TOUCH_ALL ops (pure hits on everything cached) hand out all cached arrays. 15%: the over_time workload of C14 with the per-step input arrays registered the same way and vars/estimates/data arguments digested before and after each call. 15%: the save_data/read_data workload of C13 with argument digests. Sampling, not proof.",
+      _CORE_NOTE + " Arrays cached internally but never handed to the caller are outside C02 (covered by C01's AUDIT op).", 'DESIGN.md section 4 (C02), 10.2')
 claim('C03', 'coresim',
       'deterministic simulation: same histories at maximal eviction pressure with bookkeeping invariants checked after every op and every clean-up',
       "The C01 workload weighted to maximal pressure (period 1-3, thresholds of a few scalars, importance overrides incl. 0) with inputs frozen by freeze_data / load_data (and by over_time inside C14). Invariants after every op: frozen entries present, same object, same bytes; age table subset of cache; entries replaced only after an eviction; clean-up raises nothing and makes <= (n+2)^2 size evaluations (bounded progress); watchdog never fires. Sampling, not proof.",
